@@ -628,8 +628,8 @@ func (m *monitors) atQuiescence(r *run) {
 			groups[k] = append(groups[k], holder{a, d})
 		}
 	}
-	names := []string{"conv", "msg", "retry", "realtime", "rest", "entry", "iso", "serial"}
-	oracleOf := map[string]string{"conv": "C05", "msg": "C07", "retry": "C08", "realtime": "C18", "rest": "C19", "entry": "C13", "iso": "C17", "serial": "C12"}
+	names := []string{"conv", "msg", "retry", "realtime", "rest", "entry", "iso", "serial", "wire"}
+	oracleOf := map[string]string{"conv": "C05", "msg": "C07", "retry": "C08", "realtime": "C18", "rest": "C19", "entry": "C13", "iso": "C17", "serial": "C12", "wire": "C14"}
 	failAll := func(suffix, fp, format string, a ...interface{}) {
 		for _, f := range names {
 			o := oracleOf[f] + "." + suffix
@@ -648,6 +648,8 @@ func (m *monitors) atQuiescence(r *run) {
 				o = "C17.same-key-independent"
 			case "serial":
 				o = "C12.linearizable-outcome"
+			case "wire":
+				o = "C14.same-effect" // the operation as decoded by peers and by the server has the effect it had at its issuer
 			}
 			r.fail(f, o, fp, format, a...)
 		}
